@@ -73,11 +73,49 @@ def run_config(ctx, cfg):
     from drivers import common as _DC
     _DC.VIA[0] = cfg.get("via")        # the object under contract is reached as a copy of another one (drivers/common.copied)
     _DC.SYM_ORIG[0] = cfg.get("rbm") != "sample"        # the sample() history runs on numbers
-    if cfg["rbm"] == "binary":
-        return _binary(ctx, cfg)
-    if cfg["rbm"] == "purification":
-        return _purification(ctx, cfg)
+    if cfg["rbm"] in ("binary", "purification"):
+        try:
+            with _only_bernoulli():
+                return (_binary if cfg["rbm"] == "binary" else _purification)(ctx, cfg)
+        except _ForeignDraw as e:
+            # units drawn by comparing the conditional with noise of the library's own making: the law of the draw is then
+            # that noise's, not Bernoulli(p) (single-precision uniforms put mass 2^-24 where p is 1e-13)
+            if getattr(e, "coarse", True):
+                ctx.holds("sampling/every unit is drawn by torch.bernoulli from its exact conditional (no other random source)", False, str(e))
+            else:
+                ctx.undecided("sampling/every unit is drawn by torch.bernoulli from its exact conditional", str(e))
+            return
     return _sample(ctx, cfg)
+
+
+class _ForeignDraw(Exception):
+    pass
+
+
+def _only_bernoulli():
+    """While the sampler runs, every other way torch has of producing random numbers is a contract violation."""
+    import contextlib
+    from unittest import mock
+
+    def refuse(name):
+        def f(*a, **k):
+            dt = k.get("dtype")
+            if dt is None and name.endswith("_like") and a and isinstance(a[0], torch.Tensor):
+                dt = torch.double if isinstance(a[0], st.SymTensor) else a[0].dtype
+            if dt is None:
+                dt = torch.get_default_dtype()
+            e = _ForeignDraw("the sampler called torch.%s (noise of type %s)" % (name, dt))
+            # noise as fine as the probabilities themselves (double precision) realises Bernoulli(p) to within the rounding
+            # of p: not a refutation, but not the contract either - undecided
+            e.coarse = dt not in (torch.double,)
+            raise e
+        return f
+    es = contextlib.ExitStack()
+    for name in ("rand", "rand_like", "randint", "randint_like", "multinomial", "poisson"):      # (randn draws the initial weights)
+        es.enter_context(mock.patch.object(torch, name, refuse(name)))
+    for name in ("uniform_", "random_", "normal_", "bernoulli_", "exponential_", "geometric_", "cauchy_", "log_normal_"):
+        es.enter_context(mock.patch.object(torch.Tensor, name, refuse("Tensor." + name)))
+    return es
 
 
 # --------------------------------------------------------------------- plain RBM
@@ -184,11 +222,21 @@ def _gibbs(ctx, rbm, nv, nh, na, cond_h, cond_v, cond_a):
                 st.BERNOULLI_HOOK[0] = hook
                 s0 = _c(starts)
                 keep = s0.clone()
+                tag = "[k=%d overwrite=%s pattern=%d]" % (k, overwrite, pat)
                 try:
-                    out = rbm.gibbs_steps(k, s0, overwrite=overwrite)
+                    with _only_bernoulli():
+                        out = rbm.gibbs_steps(k, s0, overwrite=overwrite)
+                except _ForeignDraw as e:
+                    # units drawn by comparing the conditional with noise of the library's own making: the law of the draw is
+                    # then that noise's, not Bernoulli(p) (single-precision uniforms put mass 2^-24 where p is 1e-13)
+                    if getattr(e, "coarse", True):
+                        ctx.holds("gibbs_steps/every unit is drawn by torch.bernoulli from its exact conditional (no other random source)" + tag, False, str(e))
+                    else:
+                        ctx.undecided("gibbs_steps/every unit is drawn by torch.bernoulli from its exact conditional" + tag, str(e))
+                    continue
                 finally:
                     st.BERNOULLI_HOOK[0] = None
-                tag = "[k=%d overwrite=%s pattern=%d]" % (k, overwrite, pat)
+                ctx.holds("gibbs_steps/every unit is drawn by torch.bernoulli from its exact conditional (no other random source)" + tag, True)
                 log = list(st.RNG_LOG)
                 shapes = [tuple(l[1].shape) for l in log]
                 sep = ([(B, nh), (B, na), (B, nv)] if pur else [(B, nh), (B, nv)]) * k
